@@ -4,6 +4,9 @@ import (
 	"strings"
 
 	"google.golang.org/protobuf/compiler/protogen"
+	"google.golang.org/protobuf/types/descriptorpb"
+
+	"github.com/SebastienMelki/sebuf/http"
 
 	verif "github.com/SebastienMelki/sebuf/internal/zzverif"
 )
@@ -21,6 +24,13 @@ func VerifC15MockAcrossFiles() {
 		if verif.Bool(name + ".wrapsEmpty") {
 			resp = c20Msg(name+"Resp", "note")
 			c20Ref(resp, "nothing", empty)
+			// declared examples, possibly with blank entries (descriptors are shared by everything
+			// generated in one run: reading them must not change them)
+			if ex := verif.Choice(name+".examples", 4); ex > 0 {
+				vals := [][]string{nil, {"alice", "bob"}, {"alice", "", "bob"}, {"", "carol", ""}}[ex]
+				verif.SetExt(resp.Fields[0].Desc.Options().(*descriptorpb.FieldOptions), http.E_FieldExamples, &http.FieldExamples{Values: vals})
+				verif.Reach("C15/mock/examples")
+			}
 			extra = append(extra, resp)
 		}
 		svc, req := c20Service(name, resp)
